@@ -235,11 +235,13 @@ class LinearHomeostasis(IndependentCellTrainer):
                 if state.target is None:
                     raise RuntimeError("'target' must be non-None if no default is set")
                 else:
-                    target = state.target
+                    cell_target = state.target
+            else:
+                cell_target = target
 
             # compute rate scaling term
             k = cell.connection.postsyn_receptive(
-                (target - monitors["spike_rate"].peek()) / target
+                (cell_target - monitors["spike_rate"].peek()) / cell_target
             ).mean(dim=-1)
 
             # compute update conditional on parameter
